@@ -139,8 +139,35 @@ class MemInterp(B.Interp):
             return ("field", loc[1][1], loc[1][2])
         return loc
 
+    # local struct objects keep their members in the heap model's member cells (so that `h.f`, `(&h)->f` and a callee's
+    # `p->f` are one cell); a struct *value* (returned by value, assigned, used as an initialiser) is a Rec
+    def _spill(self, s, frame_no, name, rec):
+        cell = (("L", frame_no, name), 0)
+        for fld, v in rec.fields.items():
+            s.ext["heap"].fields[(cell, fld)] = v
+        s.frames[frame_no][name] = B.Rec(rec.name, {})
+
+    def _gather(self, s, frame_no, name, rec):
+        cell = (("L", frame_no, name), 0)
+        d = dict(rec.fields)
+        for (c_, fld), v in s.ext["heap"].fields.items():
+            if c_ == cell:
+                d[fld] = v
+        return B.Rec(rec.name, d)
+
+    def exec_decls(self, st, decls, i, f, depth):
+        for s, sig in super().exec_decls(st, decls, i, f, depth):
+            fr = len(s.frames) - 1
+            for d in decls[i:]:
+                v = s.frames[fr].get(d["name"])
+                if isinstance(v, B.Rec) and v.fields:
+                    self._spill(s, fr, d["name"], v)
+            yield s, sig
+
     def load(self, s, loc, ti, f, n):
         loc = self._cell(loc)
+        if loc[0] == "var" and isinstance(s.frames[loc[1]].get(loc[2]), B.Rec):
+            return self._gather(s, loc[1], loc[2], s.frames[loc[1]][loc[2]])
         if loc[0] == "field":
             v = s.ext["heap"].fields.get((loc[1], loc[2]))
             if v is None:
@@ -162,6 +189,9 @@ class MemInterp(B.Interp):
 
     def store(self, s, loc, v, ti, f, n):
         loc = self._cell(loc)
+        if loc[0] == "var" and isinstance(v, B.Rec):
+            self._spill(s, loc[1], loc[2], v)
+            return
         if loc[0] == "field":
             if isinstance(v, B.BV) and ti is not None and ti[0] == "int":
                 v = self.convert(v, ti)
@@ -257,6 +287,30 @@ class MemInterp(B.Interp):
             return
         if name in ("__assert_fail",):
             raise MemFault("%s: an assertion fails (%s)" % (f.name, self.where(f, n)))
+        if name in ("memcmp", "__builtin_memcmp", "bcmp"):
+            # on bytes that are known on this trace: the sign of the first difference (unsigned bytes)
+            for s, vals in self.ev_args(st, args, 0, [], f, depth):
+                a, b, cnt = vals[0], vals[1], s.nbits(vals[2])
+                if not (isinstance(a, B.Ptr) and isinstance(b, B.Ptr) and cnt.is_const()):
+                    raise BrokenAnalysis("%s: memcmp with a size or pointer that is not known on this trace (%s)" % (f.name, self.where(f, n)))
+                c = cnt.value()
+                if c:
+                    self._bounds(s, a.base, a.off, c, f, n, "reads")
+                    self._bounds(s, b.base, b.off, c, f, n, "reads")
+                sign = 0
+                for i in range(c):
+                    x = [s.norm(t_) for t_ in self.load_byte(s, a.base, a.off + i, f, n)]
+                    y = [s.norm(t_) for t_ in self.load_byte(s, b.base, b.off + i, f, n)]
+                    if x == y:
+                        continue
+                    if any(t_ not in (0, 1) for t_ in x + y):
+                        raise BrokenAnalysis("%s: memcmp over bytes whose order is not known on this trace (%s)" % (f.name, self.where(f, n)))
+                    xv = sum(bit << k_ for k_, bit in enumerate(x))
+                    yv = sum(bit << k_ for k_, bit in enumerate(y))
+                    sign = -1 if xv < yv else 1
+                    break
+                yield s, B.const(sign & 0xffffffff, 32, True)
+            return
         yield from super().ev_call(st, n, ti, f, depth)
 
     # ---- driving ----------------------------------------------------------------------------------------
